@@ -1,3 +1,187 @@
+import PB.Model.Api
 import PB.Drv.Loop
-/- Driver stub for C12 (model not built yet): every op is rejected. -/
-def main : IO Unit := PB.Drv.lineLoop (fun _ => "bad-op")
+/-
+Driver for C12. One op per line, state = `PB.Api.St` (reset by a `#` line).
+
+  keys <raw>/<view> …      set core/apiKeys; view = E | K:<path>:<read>:<write>:<exp>, exp = - | B | <t>
+  cfgchange                another "config change" event
+  dev 0|1                  set core/devMode
+  authset 0|1              authenticator registered?
+  storm 0|1                harness-only scheduling aid (no effect on the model)
+  adv <d>                  the clock advances d seconds
+  clean                    session cleaner
+  logout <id>              auth/reset for that session
+  req <via> <method> <acrm> <origin> <host> <dirty> <route> <bridge> <authz> <basic> <cookie> <auth>
+      origin = <raw>/<view>, view = - | E | P:<host>:<hostname>:<scheme>
+      route  = <target>/<view>, view = N | M | Z | P:<ready> | A:<r>:<w>:<ready>
+      cookie = <raw>/<view>, view = - | <id>
+      auth   = T:<r>:<w> | N | F | D
+All strings are hex (`-` = empty). The raw parts are for the implementation only.
+-/
+namespace PB.Drv.C12
+open PB PB.Api
+
+def parseInt? (s : String) : Option Int :=
+  if s.startsWith "-" then (s.drop 1).toString.toNat?.map (fun n => -(n : Int)) else s.toNat?.map (fun n => (n : Int))
+
+def parseBool? : String → Option Bool
+  | "0" => some false
+  | "1" => some true
+  | _ => none
+
+def viewOf (s : String) : Option String :=
+  match s.splitOn "/" with
+  | [_, v] => some v
+  | _ => none
+
+def parseEntry (s : String) : Option KeyEntry := do
+  let v ← viewOf s
+  match v.splitOn ":" with
+  | ["E"] => pure ⟨false, [], [], [], .absent⟩
+  | ["K", p, r, w, e] =>
+    let p ← parseHex p
+    let r ← parseHex r
+    let w ← parseHex w
+    let e ← (match e with
+      | "-" => some Expires.absent
+      | "B" => some Expires.bad
+      | t => t.toNat?.map Expires.at)
+    pure ⟨true, p, r, w, e⟩
+  | _ => none
+
+def parseOrigin (s : String) : Option OriginHdr := do
+  let v ← viewOf s
+  match v.splitOn ":" with
+  | ["-"] => pure .absent
+  | ["E"] => pure .unparsable
+  | ["P", h, hn, sc] =>
+    let h ← parseHex h
+    let hn ← parseHex hn
+    let sc ← parseHex sc
+    pure (.parsed ⟨h, hn, sc⟩)
+  | _ => none
+
+def parseRoute (s : String) : Option Route := do
+  let v ← viewOf s
+  match v.splitOn ":" with
+  | ["N"] => some .noMatch
+  | ["M"] => some .methodMismatch
+  | ["Z"] => some (.matched none)
+  | ["P", rd] => do
+    let rd ← parseBool? rd
+    pure (.matched (some ⟨none, rd⟩))
+  | ["A", r, w, rd] => do
+    let r ← parseInt? r
+    let w ← parseInt? w
+    let rd ← parseBool? rd
+    pure (.matched (some ⟨some (r, w), rd⟩))
+  | _ => none
+
+def parseCookie (s : String) : Option (Option Nat) := do
+  let v ← viewOf s
+  if v = "-" then pure none else do
+    let n ← v.toNat?
+    pure (some n)
+
+def parseAuth (s : String) : Option AuthResult :=
+  match s.splitOn ":" with
+  | ["N"] => some .nilToken
+  | ["F"] => some .failed
+  | ["D"] => some .denied
+  | ["T", r, w] => do
+    let r ← parseInt? r
+    let w ← parseInt? w
+    pure (.token ⟨r, w⟩)
+  | _ => none
+
+def b01 (b : Bool) : String := if b then "1" else "0"
+
+def showResp (via : String) (r : Resp) : String :=
+  let head := match r.out with
+    | .invoke t => s!"inv {t.read} {t.write}"
+    | .status c => s!"st {c}"
+  if via = "db" then s!"{head} ac={b01 r.authCalled}"
+  else
+    let sc := match r.newSession with | some n => toString n | none => "-"
+    s!"{head} ac={b01 r.authCalled} sc={sc} co={b01 r.cors} wa={b01 r.wwwAuth}"
+
+/-- What the harness observes of an import: size after the first `updateAPIKeys`, whether expired keys
+    were seen, size at the end. -/
+def showImport (pre : St) (post : St) : String :=
+  let imp := importKeys pre.now pre.cfg
+  s!"keys {imp.keys.length} {b01 imp.hasExpired} {post.keys.length}"
+
+def mapM? {α β : Type} (f : α → Option β) : List α → Option (List β)
+  | [] => some []
+  | a :: as => do
+    let b ← f a
+    let bs ← mapM? f as
+    pure (b :: bs)
+
+def stepLine (st : St) (line : String) : St × String :=
+  match PB.Drv.words line with
+  | "keys" :: es =>
+    match mapM? parseEntry es with
+    | some cfg =>
+      let pre := { st with cfg }
+      let post := updateAPIKeys pre
+      (post, showImport pre post)
+    | none => (st, "bad-op")
+  | ["cfgchange"] =>
+    let post := updateAPIKeys st
+    (post, showImport st post)
+  | ["dev", b] =>
+    match parseBool? b with
+    | some b =>
+      let pre := { st with dev := b }
+      let post := updateAPIKeys pre
+      (post, showImport pre post)
+    | none => (st, "bad-op")
+  | ["storm", b] =>
+    -- scheduling aid of the harness (slows down config.SaveConfig); no effect on the model
+    match parseBool? b with
+    | some _ => (st, "ok")
+    | none => (st, "bad-op")
+  | ["authset", b] =>
+    match parseBool? b with
+    | some b => (step st (.setAuthSet b), "ok")
+    | none => (st, "bad-op")
+  | ["adv", d] =>
+    match d.toNat? with
+    | some d => (step st (.advance d), "ok")
+    | none => (st, "bad-op")
+  | ["clean"] =>
+    let st' := step st .clean
+    (st', s!"sessions {st'.sessions.length}")
+  | ["logout", id] =>
+    match id.toNat? with
+    | some id =>
+      let st' := step st (.logout id)
+      (st', s!"sessions {st'.sessions.length}")
+    | none => (st, "bad-op")
+  | ["req", via, m, acrm, origin, host, dirty, route, bridge, authz, basic, cookie, auth] =>
+    let req? : Option Req := do
+      let m ← parseHex m
+      let acrm ← parseHex acrm
+      let origin ← parseOrigin origin
+      let host ← parseHex host
+      let dirty ← parseBool? dirty
+      let route ← parseRoute route
+      let bridge ← parseBool? bridge
+      let authz ← parseHex authz
+      let basic ← parseHex basic
+      let cookie ← parseCookie cookie
+      let auth ← parseAuth auth
+      pure ⟨m, acrm, origin, host, dirty, route, bridge, authz, basic, cookie, auth⟩
+    match req? with
+    | some r =>
+      if via = "h" ∨ via = "db" ∨ via = "tcp" then
+        let (st', resp) := handle st r
+        (st', showResp via resp)
+      else (st, "bad-op")
+    | none => (st, "bad-op")
+  | _ => (st, "bad-op")
+
+end PB.Drv.C12
+
+def main : IO Unit := PB.Drv.runState PB.Api.St.init PB.Drv.C12.stepLine
